@@ -305,8 +305,45 @@ class Expander:
         return out
 
 
+def _desugar_suppress(func_node):
+    """`with contextlib.suppress(E): body` is `try: body / except E: pass` -- for everything that reasons about handlers"""
+    def is_suppress(item):
+        c = item.context_expr
+        return isinstance(c, ast.Call) and ((isinstance(c.func, ast.Attribute) and c.func.attr == "suppress") or (isinstance(c.func, ast.Name) and c.func.id == "suppress")) and item.optional_vars is None
+    if not any(isinstance(n, ast.With) and len(n.items) == 1 and is_suppress(n.items[0]) for n in ast.walk(func_node)):
+        return func_node
+    new = copy.deepcopy(func_node)
+
+    class T(ast.NodeTransformer):
+        def visit_With(s, n):
+            n = s.generic_visit(n)
+            if len(n.items) == 1 and is_suppress(n.items[0]):
+                excs = n.items[0].context_expr.args
+                typ = excs[0] if len(excs) == 1 else ast.Tuple(list(excs), ast.Load())
+                h = ast.ExceptHandler(typ if excs else None, None, [ast.copy_location(ast.Pass(), n)])
+                return ast.copy_location(ast.Try(n.body, [ast.copy_location(h, n)], [], []), n)
+            return n
+    new = T().visit(new)
+    ast.fix_missing_locations(new)
+    return new
+
+
 def expand_function(func_node, resolve, ctx0=None):
     """-> (node, names of the helpers expanded); node is func_node itself when nothing was expanded"""
+    if not isinstance(func_node, ast.FunctionDef):
+        return func_node, []
+    plain = func_node
+    func_node = _desugar_suppress(func_node)
+    if func_node is not plain:
+        EXPANDED[id(plain)] = func_node
+        node2, used = _expand_function(func_node, resolve, ctx0)
+        if node2 is not func_node:
+            EXPANDED[id(plain)] = node2
+        return node2, used + ["contextlib.suppress"]
+    return _expand_function(func_node, resolve, ctx0)
+
+
+def _expand_function(func_node, resolve, ctx0=None):
     if not isinstance(func_node, ast.FunctionDef):
         return func_node, []
     # cheap pre-check on the untouched tree
